@@ -511,6 +511,9 @@ class ImageBatch(DataTensor):
             ceil_mode=ceil_mode,
             count_include_pad=count_include_pad,
         )
+        if not isinstance(kernel_size, int):
+            # tensor function takes sizes in the order (..., X), Grid in the order (X, ...)
+            kernel_size = tuple(reversed(kernel_size))
         grid = tuple(
             grid.avg_pool(
                 kernel_size,
